@@ -79,6 +79,9 @@ def run_impl(lines, jobs=8):
 def run_model(lines, jobs=8):
     return run_lines(RXMODEL, [], lines, jobs)
 
+def run_mode(mode, lines, jobs=8):
+    return run_lines(RXMODEL, [mode], lines, jobs)
+
 def run_spec(lines, jobs=8):
     return run_lines(RXMODEL, ["spec"], lines, jobs)
 
